@@ -149,6 +149,35 @@ def _scratch():
     return _SCRATCH
 
 
+def recheck(task):
+    """Only the static checks (the suite verdict is already known): for re-running earlier survivors after rule changes."""
+    rel, index, props = task
+    from sa.framework import UNDECIDED, VIOLATION, run_property
+
+    with open(os.path.join(REPO, rel), "rb") as fh:
+        src = fh.read().decode("utf-8", "surrogateescape").replace("\r\n", "\n")
+    m = apply_mutation(src, index)
+    if m is None:
+        return None
+    new_src, desc = m
+    desc.update({"file": rel, "index": index, "suite_passes": True})
+    reported = []
+    for p, base in props:
+        try:
+            _, results, _ = run_property(p, REPO, "quick", overlay={rel: new_src})
+        except Exception as err:  # noqa
+            reported.append((p, "error", repr(err)[:80]))
+            continue
+        nv = [(r.rule, r.construct) for r in results if r.verdict == VIOLATION and (r.rule, r.construct) not in base]
+        und = [(r.rule, r.construct) for r in results if r.verdict == UNDECIDED]
+        if nv:
+            reported.append((p, "violation", nv[0][0]))
+        elif und:
+            reported.append((p, "undecided", und[0][0]))
+    desc["reported"] = reported
+    return desc
+
+
 def work(task):
     rel, index, props = task
     from sa.framework import UNDECIDED, VIOLATION, run_property
@@ -232,6 +261,10 @@ def main(argv):
                 continue
             for i in range(n):
                 tasks.append((rel, i, consult[rel]))
+    if "--recheck" in argv:
+        prev = [json.loads(l) for l in open(argv[argv.index("--recheck") + 1])]
+        keep = {(d["file"], d["index"]) for d in prev if d.get("status") == "survivor"}
+        tasks = [t for t in tasks if (t[0], t[1]) in keep]
     if limit:
         import random
 
@@ -240,7 +273,7 @@ def main(argv):
     print(f"{len(tasks)} mutants to try", flush=True)
     stats = {"total": 0, "suite_kills": 0, "checker_reports": 0, "survivors": 0}
     with open(out, "w") as fh, ProcessPoolExecutor(max_workers=jobs) as ex:
-        for d in ex.map(work, tasks, chunksize=2):
+        for d in ex.map(recheck if "--recheck" in argv else work, tasks, chunksize=2):
             if d is None:
                 continue
             stats["total"] += 1
